@@ -228,12 +228,27 @@ pub struct Reject {
 /// remaining ops are still issued. Returns (sink, finish result, indices of refused ops).
 /// `.3` = finish() refused the archive (over-long comment), the caller then set a short comment and called
 /// finish() again: `.1` is the result of that second call
-fn run_reject(p: &Program, start: u64, cont: bool) -> (crate::sio::Shared<crate::sio::SparseFile>, Result<(), String>, Vec<usize>, bool) {
+fn run_reject(p: &Program, start: u64, cont: bool, persistent: bool) -> (crate::sio::Shared<crate::sio::SparseFile>, Result<(), String>, Vec<usize>, bool) {
     let file = crate::sio::Shared::new(crate::sio::SparseFile::at_position(start));
     let mut w = std::mem::ManuallyDrop::new(ZipWriter::new(file.clone()));
     let mut refused = Vec::new();
     for (i, op) in p.ops.iter().enumerate() {
-        if let Err(e) = gen::apply(&mut w, op) {
+        // with `cont` the caller issues every call of the operation whatever the earlier ones returned
+        // (data is written although end_extra_data() refused the extra data); only for the extra-data kinds: after a
+        // refused over-long NAME the previous entry is still open and would legitimately take that data
+        let r = if cont && persistent {
+            let mut first: Option<String> = None;
+            gen::apply_persistent(&mut w, op, &mut |e| {
+                first.get_or_insert(e);
+            });
+            match first {
+                Some(e) => Err(e),
+                None => Ok(()),
+            }
+        } else {
+            gen::apply(&mut w, op)
+        };
+        if let Err(e) = r {
             refused.push(i);
             if !cont {
                 // closing the writer is still exercised (no panic), its result does not matter
@@ -255,7 +270,9 @@ const RETRY_COMMENT: &[u8] = b"second try";
 
 fn reject_program(r: &Reject) -> Program {
     let first = Op::File { name: "first".into(), opts: Opts::plain(Method::Deflated), chunks: vec![Content::Text { seed: 1, len: 200 }] };
-    let mut o = Opts::plain(Method::Stored);
+    // a compressing method for every other length: what the writer does with the data of an entry whose
+    // extra data it refused must still be a decodable entry if finish() reports success
+    let mut o = Opts::plain(if r.len % 2 == 1 { Method::Deflated } else { Method::Stored });
     o.large = r.large;
     let body = vec![Content::Bytes(b"body".to_vec())];
     let big = |n: u32| -> Vec<Extra> {
@@ -425,7 +442,7 @@ pub fn run(ctx: &mut Ctx) {
             info.label_if(r.cont, "calls-continue-after-refusal");
             let p = reject_program(r);
             let what = format!("{} of {} bytes (large_file={}, writer starts at offset {:#x}{})", r.kind, r.len, r.large, r.start, if r.cont { ", calls continue after a refusal" } else { "" });
-            let (file, fin, refused, retried) = match catch(|| run_reject(&p, r.start, r.cont)) {
+            let (file, fin, refused, retried) = match catch(|| run_reject(&p, r.start, r.cont, r.kind.starts_with("extra"))) {
                 Err(pm) => return Verdict::Fail(format!("PANIC for {what}: {pm}")),
                 Ok(x) => x,
             };
